@@ -261,16 +261,57 @@ func uniqInts(a []int) []int {
 	return out
 }
 
+// c19Parts: a transaction that changes the parts of its own record (ctl:auditLogParts=+X / -X) still
+// writes a balanced native record: header section A with the transaction id first, section Z last.
+func c19Parts(run *vf.Run, dir string) {
+	for _, mod := range []string{"+E", "-C", "+K", "-H"} {
+		path := filepath.Join(dir, "parts"+strings.NewReplacer("+", "add", "-", "del").Replace(mod)+".log")
+		text := fmt.Sprintf("SecRuleEngine On\nSecAuditEngine On\nSecAuditLogParts ABCFHZ\nSecAuditLogType Serial\nSecAuditLogFormat native\nSecAuditLog %s\nSecAction \"id:1,phase:1,pass,log,auditlog,msg:'m',ctl:auditLogParts=%s\"\n", path, mod)
+		w, err := coraza.NewWAF(coraza.NewWAFConfig().WithDirectives(text))
+		if err != nil {
+			run.Inconclusive("audit parts configuration rejected: %v", err)
+			return
+		}
+		tx := w.NewTransactionWithID("tx-parts")
+		tx.ProcessURI("/p", "GET", "HTTP/1.1")
+		tx.ProcessRequestHeaders()
+		_, _ = tx.ProcessRequestBody()
+		tx.ProcessResponseHeaders(200, "HTTP/1.1")
+		tx.ProcessLogging()
+		_ = tx.Close()
+		closeAny(w)
+		b, _ := os.ReadFile(path)
+		run.Eval("parts" + mod)
+		var sections []string
+		for _, line := range strings.Split(string(b), "\n") {
+			if len(line) == 16 && strings.HasPrefix(line, "--") && strings.HasSuffix(line, "--") && line[12] == '-' {
+				sections = append(sections, string(line[13]))
+			}
+		}
+		got := strings.Join(sections, "")
+		if !strings.HasPrefix(got, "A") || !strings.HasSuffix(got, "Z") || !strings.Contains(string(b), "tx-parts") {
+			run.Violate(vf.Violation{Signature: "audit:native-record-unbalanced|ctl:auditLogParts",
+				What:   fmt.Sprintf("a transaction that executes ctl:auditLogParts=%s (configured parts ABCFHZ) writes a native record with sections %q: the header section A carrying the transaction id and / or the closing section Z are missing", mod, got),
+				Replay: map[string]any{"directives": text, "record": string(b)}})
+			return
+		}
+	}
+}
+
 // c19Stress: concurrent transactions sharing one serial log file; records atomic and well-formed.
 func c19Stress(run *vf.Run) {
 	dir, _ := os.MkdirTemp("", "verif-c19-")
 	defer os.RemoveAll(dir)
+	c19Parts(run, dir)
+	if run.NumViolations() > 0 {
+		return
+	}
 	nasty := []string{"plain", "quo\"te", "new\nline", "--abcdefghij-Z--", "back\\slash", "tab\there", "unié\xff", "{\"json\":1}"}
 	G := vf.Pick(run, 8, 16)
 	N := vf.Pick(run, 150, 1500)
 	for _, format := range []string{"json", "native"} {
 		path := filepath.Join(dir, "audit-"+format+".log")
-		text := fmt.Sprintf("SecRuleEngine On\nSecRequestBodyAccess On\nSecAuditEngine On\nSecAuditLogParts ABCFHKZ\nSecAuditLogType Serial\nSecAuditLogFormat %s\nSecAuditLog %s\nSecRule REQUEST_HEADERS:x-n \"@rx .\" \"id:1,phase:1,pass,log,auditlog,msg:'m %%{MATCHED_VAR}'\"\n", format, path)
+		text := fmt.Sprintf("SecRuleEngine On\nSecRequestBodyAccess On\nSecAuditEngine On\nSecAuditLogParts ABCFHKZ\nSecAuditLogType Serial\nSecAuditLogFormat %s\nSecAuditLog %s\nSecRule REQUEST_HEADERS:x-n \"@rx .\" \"id:1,phase:1,pass,log,auditlog,msg:'m %%{MATCHED_VAR}'\"\nSecRule REQUEST_HEADERS:x-parts \"@streq add\" \"id:2,phase:1,pass,nolog,ctl:auditLogParts=+E\"\nSecRule REQUEST_HEADERS:x-parts \"@streq del\" \"id:3,phase:1,pass,nolog,ctl:auditLogParts=-C\"\n", format, path)
 		w, err := coraza.NewWAF(coraza.NewWAFConfig().WithDirectives(text))
 		if err != nil {
 			run.Inconclusive("audit stress configuration rejected: %v", err)
@@ -287,6 +328,12 @@ func c19Stress(run *vf.Run) {
 					v := nasty[(g+n)%len(nasty)]
 					tx.ProcessURI("/p?q="+fmt.Sprint(n), "POST", "HTTP/1.1")
 					tx.AddRequestHeader("X-N", v)
+					switch n % 7 { // some transactions change the parts of their own record
+					case 3:
+						tx.AddRequestHeader("X-Parts", "add")
+					case 5:
+						tx.AddRequestHeader("X-Parts", "del")
+					}
 					tx.AddRequestHeader("Content-Type", "text/plain")
 					tx.ProcessRequestHeaders()
 					_, _, _ = tx.WriteRequestBody([]byte("body " + v + "\n" + nasty[(n+3)%len(nasty)]))
